@@ -9,11 +9,11 @@ CLAIMS = {
         note="Trusted: Kani/CBMC. Assumed: representation invariant current_sort <= current of GroupOrderingPartial (established by new_groups via arrow partition ranges, which is not verified)."),
     "C08": dict(
         category="proof", technique="contract-based verification with Kani/CBMC on the real crate (loop-free harness, symbolic inner order)",
-        text="The per-column merge comparator ArrayValues::{is_null, compare, eq, eq_to_previous, get_value, eq_to_single_row_value} is proved to implement exactly the requested ordering rule for every SortOptions combination, every null threshold and an arbitrary inner order: NULL placement by nulls_first independent of direction, values reversed iff descending, eq <=> Equal, antisymmetric, transitive. The loser tree, batch building, spilling, TopK are not within reach and not claimed.",
+        text="The per-column merge comparator ArrayValues::{is_null, compare, eq, eq_to_previous, get_value, eq_to_single_row_value} is proved to implement exactly the requested ordering rule for every SortOptions combination, every null threshold and an arbitrary inner order: NULL placement by nulls_first independent of direction, values reversed iff descending, eq <=> Equal, antisymmetric, transitive. Bounded stand-in for the loser tree (real is_gt / init_loser_tree / update_loser_tree on a forged stream, k <= 4): permutation + minimum at the root. Batch building, spilling, TopK are not within reach and not claimed.",
         note="Trusted: Kani/CBMC; inner CursorValues modelled by a symbolic order on 4 slots; NULL layout (prefix/suffix by null_threshold) as established by ArrayValues::new."),
     "C09": dict(
         category="proof", technique="contract-based deductive verification (Verus/SMT on the extracted real function)",
-        text="ROWS-frame computation (WindowFrameContext::calculate_range_rows) proved, for every u64 offset, every frame shape and every idx < length, to return exactly the mathematical frame {j | 0<=j<length, idx-p<=j<=idx+f} with no arithmetic overflow. The rest of the property (RANGE/GROUPS frames, evaluators, executors) is outside the reach of contracts and is not claimed.",
+        text="ROWS-frame computation (WindowFrameContext::calculate_range_rows) proved, for every u64 offset, every frame shape and every idx < length, to return exactly the mathematical frame {j | 0<=j<length, idx-p<=j<=idx+f} with no arithmetic overflow. Also under contract: is_end_bound_safe_for_groups (overflow-free for every u64 offset; only final when exactly n+1 groups remain). RANGE frames, the GROUPS index computation, evaluators and executors are outside the reach of contracts and not claimed.",
         note="Trusted: Verus+Z3; usize is 64 bit; type model of ScalarValue/WindowFrameBound limited to the variants the function matches; rewrites R9/R11 of DESIGN.md 2.2; precondition idx < length from call sites."),
     "C10": dict(
         category="proof", technique="contract-based deductive verification (Verus/SMT on extracted real functions; comparison and Arrow access behind assumed contracts)",
@@ -45,11 +45,11 @@ CLAIMS = {
         note="Trusted: Verus+Z3, Kani/CBMC; rewrites R13/R14/R17 (closure -> verified helper, truncation before float scaling, mut self rename); n_partitions >= 1; column statistics after a cut not verified (symbolic f64 division does not finish in CBMC)."),
     "C40": dict(
         category="proof", technique="contract-based deductive verification (Verus/SMT on the extracted cache state machine against a recency-ordered sequence view; LRU queue behind an assumed contract)",
-        text="DefaultCacheState::{get, contains_key, put, remove, evict_entries, clear} and the update_cache_limit critical section are proved to keep accounted size == sum of (key size + value size) over the entries, to stay within the byte limit after every put / limit change, to evict exactly the shortest prefix of least-recently-used entries needed, to make the written key most recent, and never to return an expired entry (expired => removed, None/false). The file-validity half of C40 (size/mtime checks, table-drop invalidation seen by queries) is whole-engine and not claimed.",
+        text="DefaultCacheState::{get, contains_key, put, remove, evict_entries, clear} and the update_cache_limit critical section are proved to keep accounted size == sum of (key size + value size) over the entries, to stay within the byte limit after every put / limit change, to evict exactly the shortest prefix of least-recently-used entries needed, to make the written key most recent, and never to return an expired entry (expired => removed, None/false). CachedFileMetadataEntry::is_valid_for is checked (Kani, forged entries): valid <=> size and mtime unchanged. Table-drop invalidation as seen by queries is whole-engine and not claimed.",
         note="Trusted: Verus+Z3; ASSUMED LruQueue contract (not checked against lru_queue.rs); size() pure, clone equal, Eq == spec equality; Instant/Duration as integers; memory_limit <= usize::MAX/2; hit counters dropped (R8); rewrites R4,R5,R6,R10,R13,R15."),
     "C42": dict(
         category="proof", technique="contract-based verification with Kani/CBMC on the real crate (complete loop-free harnesses for the combinators; bounded whole-tree harnesses listed separately)",
-        text="Complete proofs (all cases) of the control contract of TreeNodeRecursion::{visit_children, visit_sibling, visit_parent} and Transformed::{transform_children, transform_sibling, transform_parent, transform_data, update_data, map_data}: closure called iff the documented state, Jump consumed exactly at children, Stop propagates, changed flag is the OR. Bounded stand-ins (one 4-node tree, all decision vectors) for the real apply/visit/transform_down/transform_up and the sibling iterators.",
+        text="Complete proofs (all cases) of the control contract of TreeNodeRecursion::{visit_children, visit_sibling, visit_parent} and Transformed::{transform_children, transform_sibling, transform_parent, transform_data, update_data, map_data}: closure called iff the documented state, Jump consumed exactly at children, Stop propagates, changed flag is the OR. Bounded stand-ins (one 4-node tree / one 4-leaf container, all decision vectors) for the real apply / visit / transform_down / transform_up / transform_down_up / rewrite, the sibling iterators and the Vec/Option/Box/tuple TreeNodeContainer impls.",
         note="Trusted: Kani/CBMC; error values opaque; induction from combinators to arbitrary trees is a paper argument; concrete node types (Expr, LogicalPlan) not covered."),
 }
 
